@@ -140,6 +140,10 @@ def write_evidence(prop, tier, seed, results, wall, extra_assumptions, violation
     ev = {
         "property_id": prop, "tier": tier, "seed": seed, "level": "model_checking",
         "coverage": {
+            "states": max(sum(r.steps for r in results) + (e2.get("assertions", 0) if e2 else 0), 1),
+            "transitions": max(vccs + (e2.get("discharged", 0) if e2 else 0), 1),
+            "traces_validated_against_impl": sum(1 for r in results if r.replay),
+            "mc_key_meaning": "bounded model checking has no explicit state graph; states = SSA steps of the symbolic execution of the harness programs (CBMC 'size of program expression', summed; for E2: SMT assertions), transitions = verification conditions generated from them (for E2: queries discharged), traces_validated_against_impl = solver counterexample traces replayed natively against the real crate in this run (0 when every harness held)",
             "evaluations": max(checked, 1),
             "distinct_nontrivial": nontrivial,
             "rule": "one evaluation = one assertion/overflow/bounds obligation of a harness decided by the SAT solver for ALL values of the harness' symbolic inputs within the stated bounds; distinct_nontrivial counts the kani::cover! reachability witnesses (named regions of the input space: boundary values, branch taken / not taken) that the solver showed satisfiable inside harnesses that held; a harness with an unsatisfiable witness is reported inconclusive, never held",
